@@ -122,6 +122,15 @@ def run_maps(ctx, p):
             cv = b.colvec(v)
             if cv.shape != (len(v), 1):
                 d = math.inf
+            # unitvec / unitvec_norm: the direction, of unit length, for every vector the library does not call zero
+            # (length above 10 eps; the direction of a differential motion of 1e-9 is a vector like any other)
+            if want > 1e-13:
+                u1 = b.unitvec(v)
+                u2, n2 = b.unitvec_norm(v)
+                if u1 is None or u2 is None:
+                    d = math.inf
+                else:
+                    d = max(d, md(np.asarray(u1) * want, v) / want, md(np.asarray(u2) * want, v) / want, abs(float(n2) - want) / want)
         else:
             raise KeyError(which)
     except Exception as e:
@@ -376,6 +385,8 @@ def run(ctx):
         n = {'vex_skew': [1, 3], 'vexa_skewa': [3, 6], 'skew_cross': [3], 'norms': [1, 3, 6]}[which]
         n = n[rng.integers(len(n))]
         lo, hi = (1e-6, 1e6) if rng.random() < 0.6 else (1e-2, 1e2)
+        if which == 'norms' and rng.random() < 0.25:
+            lo, hi = 1e-12, 1e-7        # short vectors (directions of differential motions)
         drive(RUNNERS, ctx, 'maps', dict(which=which, v=gen.vec(rng, n, lo, hi), u=gen.vec(rng, n, lo, hi)))
         if which in ('vex_skew', 'vexa_skewa') and rng.random() < 0.15:
             it = ['uint8', 'uint16', 'uint64', 'int8', 'int16', 'int64'][rng.integers(6)]
@@ -385,6 +396,8 @@ def run(ctx):
                 drive(RUNNERS, ctx, 'maps', dict(which=which, v=[int(x) for x in vi], u=gen.vec(rng, n, 1e-2, 1e2), itype=it, iform=['array', 'scalars'][rng.integers(2)]))
     for _ in range(ctx.scale(300, 6000)):
         n = int(rng.integers(2, 5))
+        if rng.random() < 0.1:
+            n = int([8, 9, 16, 17, 32, 33, 40, 64, 100][rng.integers(9)])        # many values (a batch path would show here)
         kinds, Ss = [], []
         for _k in range(n):
             kd = 'RPG'[rng.integers(3)]
